@@ -23,6 +23,7 @@ EXPLANATION = ('HASH-CACHE: every tree-hash read that ends up in a group context
                'violation until classified). TRIM/UNMERGED: batch_edit trims after edits; add_leaf records the new leaf as unmerged. '
                'VALIDATOR: TreeValidator::validate runs all five sub-validations with checked results (also under C03) and their '
                'guards are all present. Hash values against an independent implementation are not decided.')
+EXPLANATION += " RANGE: every comparison with a bound of a subtree's leaf range is half open. ORDER: a leaf enters the node vector only after the uniqueness check accepted it."
 ASSUMPTIONS = ['leftmost-blank placement arithmetic (next_empty_leaf) is value-level and not decided']
 
 TREE_FNS = r'^(TreeKemPublic::|TreeValidator::|tree_validator::|NodeVec::|tree_hash::|TreeHashes::|parent_hash::|ParentHash)'
